@@ -22,7 +22,7 @@ import os
 from typing import Any, Callable, Dict, List, Tuple
 
 from sa.model import Program
-from sa.report import Check, Obligation, REPO, VERIF
+from sa.report import CACHE, Check, Obligation, REPO, VERIF
 from sa.rulecases import _self_digest, source_digest
 from sa.summaries import Summaries
 
@@ -134,7 +134,7 @@ def _compute(name: str, prog: Program) -> List[dict]:
 
 def clause_records(name: str, prog: Program) -> List[dict]:
     digest = source_digest(prog, extra="contract:" + name + _self_digest() + _props_digest())
-    cache = VERIF / ".cache" / f"contract-{name}-{digest}.json"
+    cache = CACHE / f"contract-{name}-{digest}.json"
     if cache.exists():
         try:
             return json.loads(cache.read_text())
